@@ -19,6 +19,8 @@ structure ImplOp where
   mu : Nat := 0
   /-- the call was `send` (= `write` then `flush`); `body` says `write` -/
   isSend : Bool := false
+  /-- for `setcfg`: the configuration the call installs -/
+  newCfg : Option Config := none
   deriving Inhabited
 
 structure ImplCase where
@@ -182,6 +184,9 @@ def specVerdict (c : ImplCase) : Option String :=
     let (got, err, ioStop) := go reads []
     let closeDelivered := got.any fun m => m.startsWith "close"
     let isPrefix := got.length ≤ want.length && got == want.take got.length
+    -- the peer's Close is part of what had to be reported and was not (C12)
+    let tag := if (want.any fun m => m.startsWith "close") && !closeDelivered then " close-not-reported" else ""
+    Option.map (· ++ tag) <|
     if !isPrefix then
       some s!"spec-messages got={got.length} want={want.length} first-diff={(got.zip want).findIdx? (fun p => p.1 != p.2)}"
     else
@@ -216,7 +221,8 @@ def monSpecAll (c : ImplCase) : List String :=
   if !c.newOk || !readOnly c || !inboundClean c then []
   else match specVerdict c with
     | none => ["C02", "C05", "C06", "C08", "C01", "C19"].map fun p => s!"mon {p} ok"
-    | some v => ["C02", "C05", "C06", "C08", "C01", "C19"].map fun p => s!"mon {p} FAIL {v}"
+    | some v => (["C02", "C05", "C06", "C08", "C01", "C19"] ++ (if v.endsWith "close-not-reported" then ["C12"] else [])).map
+        fun p => s!"mon {p} FAIL {v}"
 
 /-! ### C05: a read whose transport read would block reports exactly that -/
 def monC05Block (c : ImplCase) : List String :=
@@ -552,12 +558,18 @@ def monC14 (c : ImplCase) : List String :=
   let ops := c.ops.toList
   let res : Option String := Id.run do
     let mut bad : Option String := none
+    -- `set_config` may lower the maximum below what is already buffered: the bound that a buffer
+    -- filled earlier has to respect is the largest maximum in force so far
+    let mut maxwSeen := c.cfg.maxw
     for o in ops do
+      match o.newCfg with
+      | some nc => maxwSeen := max maxwSeen nc.maxw
+      | none => pure ()
       -- every transport write offers the whole write buffer: it may never exceed the maximum
       for t in o.io do
         if t.startsWith "w:" then
           match (t.drop 2).toString.splitOn "/" with
-          | [_, off] => if off.toNat?.getD 0 > c.cfg.maxw then bad := bad <|> some "offered-more-than-max-write-buffer"
+          | [_, off] => if off.toNat?.getD 0 > maxwSeen then bad := bad <|> some "offered-more-than-max-write-buffer"
           | _ => pure ()
       match o.body, o.res with
       | "write" :: kind :: h :: _, "err" :: e :: rest =>
@@ -581,9 +593,16 @@ def monC14 (c : ImplCase) : List String :=
     let mut bad : Option String := none
     let mut unsent : Nat := 0
     let mut live := true
+    -- the two sizes in force (a successful `set_config` replaces them)
+    let mut wbuf := c.cfg.wbuf
+    let mut maxw := c.cfg.maxw
     for o in ops do
       if live then
         match o.body with
+        | "setcfg" :: _ =>
+          match o.newCfg, o.res with
+          | some nc, "ok" :: _ => wbuf := nc.wbuf; maxw := nc.maxw
+          | _, _ => live := false
         | "write" :: kind :: h :: _ =>
           if o.isSend then live := false
           else if kind == "text" || kind == "binary" || kind == "ping" then
@@ -592,13 +611,13 @@ def monC14 (c : ImplCase) : List String :=
             let touched := o.io.any fun t => t.startsWith "w:" || t.startsWith "f:"
             match o.res with
             | "ok" :: _ =>
-              if unsent + fl ≤ c.cfg.wbuf && touched then bad := bad <|> some "write-below-threshold-touched-transport"
-              if c.cfg.wbuf == 0 && !touched then bad := bad <|> some "write-buffer-size-0-but-write-kept-back"
-              if unsent + fl > c.cfg.maxw then bad := bad <|> some "accepted-beyond-max-write-buffer"
+              if unsent + fl ≤ wbuf && touched then bad := bad <|> some "write-below-threshold-touched-transport"
+              if wbuf == 0 && !touched then bad := bad <|> some "write-buffer-size-0-but-write-kept-back"
+              if unsent + fl > maxw then bad := bad <|> some "accepted-beyond-max-write-buffer"
               unsent := unsent + fl - o.wire.length
             | "err" :: e :: _ =>
               if e.startsWith "WriteBufferFull(" then
-                if unsent + fl ≤ c.cfg.maxw then bad := bad <|> some "write-buffer-full-although-room"
+                if unsent + fl ≤ maxw then bad := bad <|> some "write-buffer-full-although-room"
                 if touched then bad := bad <|> some "write-buffer-full-touched-transport"
               else if e.startsWith "Io." then
                 unsent := unsent + fl - o.wire.length
@@ -644,8 +663,41 @@ def monMem (c : ImplCase) : List String :=
 configuration of the case header do not apply (the correspondence still compares everything) -/
 def hasSetCfg (c : ImplCase) : Bool := c.ops.any fun o => isOp o "setcfg"
 
-def all (c : ImplCase) : List String :=
-  if hasSetCfg c then monC07 c ++ monC09 c ++ monC09Keys c ++ monC05Block c else
+/-- C06 under a changing configuration: a data message handed to the user is never larger than
+the `max_message_size` in force when it is delivered -/
+def monC06Live (c : ImplCase) : List String :=
+  if !c.newOk then [] else
+  let res : Option String := Id.run do
+    let mut bad : Option String := none
+    let mut maxMsg := c.cfg.maxMsg
+    for o in c.ops.toList do
+      match o.newCfg, o.res with
+      | some nc, "ok" :: _ => maxMsg := nc.maxMsg
+      | _, _ => pure ()
+      if isOp o "read" then
+        match o.res, maxMsg with
+        | ["ok", kind, h], some m =>
+          if (kind == "text" || kind == "binary") && (if h == "-" then 0 else h.length / 2) > m then
+            bad := bad <|> some s!"delivered-larger-than-max-message-size-in-force max={m}"
+        | _, _ => pure ()
+    return bad
+  match res with
+  | some b => [s!"mon C06 FAIL {b}"]
+  | none => ["mon C06 ok"]
+
+/-- A case whose `set_config` calls all precede every other call behaves as a connection created
+with the last configuration installed: the same case without those calls, under that configuration -/
+def leadingSetCfg (c : ImplCase) : Option ImplCase :=
+  let ops := c.ops.toList
+  let lead := ops.takeWhile fun o => isOp o "setcfg"
+  let rest := ops.dropWhile fun o => isOp o "setcfg"
+  if lead.isEmpty || rest.any (fun o => isOp o "setcfg") then none
+  else if !(lead.all fun o => o.res.head? == some "ok" && o.wire.isEmpty) then none
+  else match lead.getLast?.bind (·.newCfg) with
+    | some nc => some { c with cfg := nc, ops := rest.toArray }
+    | none => none
+
+def allFixed (c : ImplCase) : List String :=
   let m10 := monC10 c
   let m09 := monC09 c
   monC07 c ++ monMem c ++ monSpecAll c ++ monC05Block c ++ monC03 c ++ m09 ++ monC09Keys c ++ m10 ++ monC11 c ++ monC12 c ++ monC13 c ++ monC14 c ++ monC01 c
@@ -655,5 +707,14 @@ def all (c : ImplCase) : List String :=
     ++ alias ((monC13 c).filter (·.contains "FAIL")) "C13" "C04" ++ alias ((monC03 c).filter (·.contains "FAIL")) "C03" "C04"
     ++ alias ((monC07 c).filter fun l => l.startsWith "mon C07 FAIL") "C07" "C05"
     ++ alias ((monC07 c).filter fun l => l.startsWith "mon C07 FAIL") "C07" "C02"
+
+def all (c : ImplCase) : List String :=
+  if !hasSetCfg c then allFixed c else
+  match leadingSetCfg c with
+  | some c' => allFixed c'
+  | none =>
+    -- the configuration changes in mid-connection: only the monitors that follow the change (or
+    -- do not depend on the configuration) apply; the correspondence still compares everything
+    monC07 c ++ monC09 c ++ monC09Keys c ++ monC05Block c ++ monC14 c ++ monC06Live c
 
 end Mon
